@@ -54,8 +54,8 @@ def check(col: Collector, tier: str):
     for r in raises:
         gs = guards(init.node, r, pm)
         for t, truth in gs:
-            if truth and isinstance(t, ast.Compare) and src(t.left) == "len(self.files)" and isinstance(t.ops[0], ast.Eq) \
-                    and src(t.comparators[0]) == "0":
+            # (E-NORM N18: an emptiness test reads `not self.files`, however it is spelled)
+            if (not truth) and src(t) == "self.files":
                 empty_ok = True
             if (not truth) and isinstance(t, ast.Call) and call_name(t) == "exists":
                 loops = enclosing(init.node, r, (ast.For,), pm)
@@ -350,18 +350,22 @@ def check_run_shape(col: Collector, repo: Repo, ex, run_dir_var):
         for n in walk_no_nested(fn):
             if isinstance(n, ast.Assign) and src(n.targets[0]) == img.id:
                 defs.append((n, guards(fn, n, pm)))
-    base = [d for d, g in defs if src(d.value) == "self._docker_image" and not [x for x in g if not isinstance(x[0], ast.Constant)]]
     over = []
+    mdv = None
     for d, g in defs:
         v = d.value
         if isinstance(v, ast.Attribute) and v.attr == "image" and isinstance(v.value, ast.Subscript) and src(v.value.slice) == "-1":
             mdv = src(v.value.value)
             mdval = _single_assign(fn, mdv)
-            guarded = any(truth and src(t).replace(" ", "") in (f"len({mdv})>0", f"len({mdv})!=0", f"len({mdv})>=1", mdv) for t, truth in g)
+            guarded = any(truth and src(t) == mdv for t, truth in g)           # "some docker metadata is present" (E-NORM N18)
             if len(mdval) == 1 and isinstance(mdval[0], ast.Call) and call_name(mdval[0]) == "extended_md" and guarded:
                 over.append(d)
-    col.add("C17.R3", ex.short, "image-default-and-metadata-override", ok and len(base) == 1 and len(over) == 1 and len(defs) == 2
-            and ordk(base[0]) < ordk(over[0]),
+    # the default: assigned before the override unconditionally, or in the branch where no metadata is present
+    base = [d for d, g in defs if src(d.value) == "self._docker_image"
+            and [(src(t), tr_) for t, tr_ in g if not isinstance(t, ast.Constant)] in ([], [(mdv, False)])]
+    if base and over and not [x for x in guards(fn, base[0], pm) if not isinstance(x[0], ast.Constant)]:
+        base = base if ordk(base[0]) < ordk(over[0]) else []
+    col.add("C17.R3", ex.short, "image-default-and-metadata-override", ok and len(base) == 1 and len(over) == 1 and len(defs) == 2,
             "the image passed to docker.run must be self._docker_image, overridden by the LAST docker metadata (md[-1].image) only when some is present "
             f"(definitions: {[src(d) for d, _ in defs]})", loc)
     cmd = arg(r, 1, "command")
